@@ -96,8 +96,15 @@ def gen_cases(ctx):
         out.append({'stream': 's', 'sample': name, 'Hy': 1.0, 'nray': 24, 'seed': 2, 'wi': -1})
     n_g, nray = (200, 64) if q else (15000, 256)
     for _ in range(n_g):
-        out.append({'stream': 'g', 'desc': gen_desc(rng), 'Hy': rng.choice([0.0, 1.0, -1.0, rng.uniform(-1, 1)]),
-                    'nray': nray, 'seed': rng.randint(0, 10 ** 9), 'wi': rng.randint(0, 2)})
+        c = {'stream': 'g', 'desc': gen_desc(rng), 'Hy': rng.choice([0.0, 1.0, -1.0, rng.uniform(-1, 1)]),
+             'nray': nray, 'seed': rng.randint(0, 10 ** 9), 'wi': rng.randint(0, 2)}
+        u = rng.random()
+        if u < 0.15:
+            # multi-step history: the finished lens is rescaled (apertures are scaled with it) and then traced
+            c['post'] = [['warm'], ['scale', rng.choice([0.5, 2.0, 1.25, 0.8, rng.uniform(0.3, 3.0)])]]
+        elif u < 0.22:
+            c['desc']['via_setters'] = True
+        out.append(c)
     for _ in range(60 if q else 3000):
         dist = rng.choice(DISTS)
         out.append({'stream': 't', 'desc': gen_desc(rng), 'Hx': rng.choice([0.0, 0.0, rng.uniform(-1, 1)]),
